@@ -106,11 +106,28 @@ Proof. apply pair_total_order; [exact gname_total_order|exact lkey_total_order].
 Lemma rloc_total_order : total_order rloc_cmp.
 Proof. apply pair_total_order; [exact path_total_order|exact N_total_order]. Qed.
 
+(** * the keys identify the entries *)
+Lemma NoDup_map_pair_r : forall A B C (f : A -> B) (g : A -> C) l,
+  NoDup (map g l) -> NoDup (map (fun x => (f x, g x)) l).
+Proof.
+  induction l as [|x r IH]; intros H; cbn [map]; [constructor|].
+  cbn [map] in H. inversion H as [|? ? Hx Hr]; subst. constructor; [|apply IH; exact Hr].
+  intros Hin. apply Hx. apply in_map_iff in Hin. destruct Hin as (y & Hy1 & Hy2).
+  apply in_map_iff. exists y. split; [congruence|exact Hy2].
+Qed.
+
+Lemma wf_modules_of_distinct : forall ms, modules_distinct ms -> wf_modules ms.
+Proof. intros ms H. unfold wf_modules, mkey, mkey_k, modules_key_has_path. apply NoDup_map_pair_r. exact H. Qed.
+Lemma wf_types_of_distinct : forall ts, types_distinct ts -> wf_types ts.
+Proof. intros ts H. unfold wf_types, tkey, tkey_k, types_key_has_locs. apply NoDup_map_pair_r. exact H. Qed.
+Lemma wf_globals_of_distinct : forall gs, globals_distinct gs -> wf_globals gs.
+Proof. intros gs H. unfold wf_globals, gkey, gkey_k, globals_key_has_decl_id. apply NoDup_map_pair_r. exact H. Qed.
+
 (** * reproducibility *)
 Lemma modules_reproducible : forall ms ms',
   wf_modules ms -> Permutation ms ms' -> export_modules ms = export_modules ms'.
 Proof.
-  intros ms ms' Hwf Hp. unfold export_modules, export_modules_f, modules_sorted, sort_if.
+  intros ms ms' Hwf Hp. unfold export_modules, export_modules_f, export_modules_k, modules_sorted, sort_if. fold mkey.
   rewrite (isort_perm_invariant _ _ mkey mkey_cmp mkey_total_order ms ms' Hwf Hp). reflexivity.
 Qed.
 
@@ -133,12 +150,13 @@ Proof.
 Qed.
 
 Lemma export_reproducible : forall ms ms' ts ts' gs gs',
-  wf_modules ms -> wf_types ts -> wf_globals gs ->
+  modules_distinct ms -> types_distinct ts -> globals_distinct gs ->
   Permutation ms ms' -> Permutation ts ts' -> Permutation gs gs' ->
   export ms ts gs = export ms' ts' gs'.
 Proof.
   intros. unfold export.
-  rewrite (modules_reproducible ms ms'), (types_reproducible ts ts'), (globals_reproducible gs gs'); auto.
+  rewrite (modules_reproducible ms ms'), (types_reproducible ts ts'), (globals_reproducible gs gs');
+    auto using wf_modules_of_distinct, wf_types_of_distinct, wf_globals_of_distinct.
 Qed.
 
 (** the location list of one type does not depend on the order in which its files were analysed *)
@@ -163,10 +181,10 @@ Lemma modules_complete_once : forall ms m,
   NoDup (map mi_file ms) -> In m ms ->
   occ mi_file N.compare (mi_file m) (export_modules ms) = if mi_main m then 1%nat else 0%nat.
 Proof.
-  intros ms m Hnd Hin. unfold export_modules, export_modules_f, modules_skip_no_export.
+  intros ms m Hnd Hin. unfold export_modules, export_modules_f, export_modules_k, modules_skip_no_export.
   cbn [andb negb]. rewrite filter_true.
   rewrite (occ_perm _ _ mi_file N.compare (mi_file m) _ (filter mi_main ms)
-             (perm_filter _ mi_main _ _ (sort_if_perm _ _ modules_sorted mkey mkey_cmp ms))).
+             (perm_filter _ mi_main _ _ (sort_if_perm _ _ modules_sorted (mkey_k modules_key_has_path) mkey_cmp ms))).
   destruct (mi_main m) eqn:Em.
   - apply occ_one; [exact N_total_order|apply NoDup_map_filter; exact Hnd|].
     apply filter_In. split; assumption.
@@ -198,7 +216,7 @@ Qed.
 
 Lemma gkey_le_name : forall x y, lek gkey gkey_cmp x y -> lek g_name gname_cmp x y.
 Proof.
-  unfold lek, gkey, gkey_cmp, pair_cmp. cbn [fst snd]. intros x y H Hgt. apply H.
+  unfold lek, gkey, gkey_k, gkey_cmp, pair_cmp. cbn [fst snd]. intros x y H Hgt. apply H.
   unfold gname_cmp in Hgt. rewrite Hgt. reflexivity.
 Qed.
 
@@ -272,8 +290,25 @@ Proof.
   intros sorted. split.
   - intros H. destruct sorted; [reflexivity|]. exfalso.
     specialize (H [mA; mB] [mB; mA] wf_mAB (perm_swap _ _ _)). vm_compute in H. discriminate.
-  - intros -> ms ms' Hwf Hp. unfold export_modules_f, sort_if.
+  - intros -> ms ms' Hwf Hp. unfold export_modules_f, export_modules_k, sort_if. fold mkey.
     rewrite (isort_perm_invariant _ _ mkey mkey_cmp mkey_total_order ms ms' Hwf Hp). reflexivity.
+Qed.
+
+Definition mC : module_info := {| mi_file := 3; mi_path := Some [[97]; [105]]; mi_name := [97]; mi_main := true; mi_export := true |}.
+
+(** ties of a key that does not identify the module stay in enumeration order *)
+Lemma modules_reproducible_iff_key_has_path : forall with_path,
+  (forall ms ms', modules_distinct ms -> Permutation ms ms' ->
+     export_modules_k with_path true false ms = export_modules_k with_path true false ms') <-> with_path = true.
+Proof.
+  intros with_path. split.
+  - intros H. destruct with_path; [reflexivity|]. exfalso.
+    assert (modules_distinct [mA; mC]) as Hd.
+    { unfold modules_distinct. cbn. constructor; [|constructor; [|constructor]]; cbn; intuition discriminate. }
+    specialize (H [mA; mC] [mC; mA] Hd (perm_swap _ _ _)). vm_compute in H. discriminate.
+  - intros -> ms ms' Hd Hp. unfold export_modules_k, sort_if.
+    rewrite (isort_perm_invariant _ _ (mkey_k true) mkey_cmp mkey_total_order ms ms'); [reflexivity| |exact Hp].
+    unfold mkey_k. apply NoDup_map_pair_r. exact Hd.
 Qed.
 
 Lemma modules_complete_iff_not_skipped : forall skip,
@@ -285,9 +320,9 @@ Proof.
     assert (NoDup (map mi_file [mA; mB])) as Hnd.
     { cbn. constructor; [|constructor; [|constructor]]; cbn; intuition discriminate. }
     specialize (H [mA; mB] mB Hnd (or_intror (or_introl eq_refl)) eq_refl). vm_compute in H. discriminate.
-  - intros -> ms m Hnd Hin Hmain. unfold export_modules_f. cbn [andb negb]. rewrite filter_true.
+  - intros -> ms m Hnd Hin Hmain. unfold export_modules_f, export_modules_k. cbn [andb negb]. rewrite filter_true.
     rewrite (occ_perm _ _ mi_file N.compare (mi_file m) _ (filter mi_main ms)
-               (perm_filter _ mi_main _ _ (sort_if_perm _ _ true mkey mkey_cmp ms))).
+               (perm_filter _ mi_main _ _ (sort_if_perm _ _ true (mkey_k modules_key_has_path) mkey_cmp ms))).
     apply occ_one; [exact N_total_order|apply NoDup_map_filter; exact Hnd|].
     apply filter_In. split; assumption.
 Qed.
